@@ -252,3 +252,182 @@ func TestVerifC12MTCPCut(t *testing.T) {
 		}
 	})
 }
+
+// ---- concurrent writers on one connection: several senders and the keep-alive ticker ----
+
+type c12Conc struct {
+	Senders  [][]c12Item `json:"senders"` // bundles per sending goroutine
+	KeepLive bool        `json:"keepalive"`
+}
+
+func TestVerifC12MTCPConcurrent(t *testing.T) {
+	log.SetOutput(io.Discard)
+	u := vk.Unit{Property: "C12", Name: "c12.mtcp-concurrent", Quick: 60, Thorough: 3000,
+		Rule: "1..3 goroutines send 1..6 bundles each (payload 0..70000, i.e. also frames larger than the 4 KiB write buffer) on ONE MTCPClient while a further goroutine writes keep-alive frames exactly as the client's ticker does (mutex, zero-length byte string) every 20..200 microseconds; oracle: every Send returns nil, the server hands up exactly the multiset of bundles sent, byte-identical, each sender's bundles in its own order, no PeerDisappeared; non-trivial = >= 2 writers (senders + keep-alive) and a frame > 4096 bytes; distinct by case hash"}
+	vk.Check(t, u, func(t *rapid.T) c12Conc {
+		item := rapid.Custom(func(t *rapid.T) c12Item {
+			pay := rapid.OneOf(rapid.IntRange(0, 300), rapid.SampledFrom([]int{4000, 4096, 5000, 9000, 20000, 65536, 70000})).Draw(t, "pay")
+			return c12Item{Pay: pay, Seed: rapid.Uint64Range(0, 1<<30).Draw(t, "seed")}
+		})
+		n := rapid.IntRange(1, 3).Draw(t, "senders")
+		cs := c12Conc{KeepLive: rapid.Bool().Draw(t, "keepalive")}
+		for i := 0; i < n; i++ {
+			cs.Senders = append(cs.Senders, rapid.SliceOfN(item, 1, 6).Draw(t, "items"))
+		}
+		return cs
+	}, func(c *vk.Ctx, cs c12Conc) {
+		port, err := vfFreePort()
+		if err != nil {
+			c.Failf("c12.harness", "port: %v", err)
+		}
+		serv := NewMTCPServer(fmt.Sprintf("127.0.0.1:%d", port), bpv7.MustNewEndpointID("dtn://server/"), false)
+		if err, _ := serv.Start(); err != nil {
+			c.Note("server start failed (port race): " + err.Error())
+			return
+		}
+		var mu sync.Mutex
+		var got [][]byte
+		servDone := make(chan struct{})
+		go func() {
+			defer close(servDone)
+			for st := range serv.Channel() {
+				if st.MessageType == cla.ReceivedBundle {
+					rb := st.Message.(cla.ConvergenceReceivedBundle)
+					mu.Lock()
+					got = append(got, enc(rb.Bundle))
+					mu.Unlock()
+				}
+			}
+		}()
+		client := NewMTCPClient(fmt.Sprintf("127.0.0.1:%d", port), bpv7.MustNewEndpointID("dtn://server/"), false)
+		if err, _ := client.Start(); err != nil {
+			_ = serv.Close()
+			c.Failf("c12.harness", "client start: %v", err)
+		}
+		gone := false
+		cliDone := make(chan struct{})
+		go func() {
+			defer close(cliDone)
+			for st := range client.Channel() {
+				if st.MessageType == cla.PeerDisappeared {
+					mu.Lock()
+					gone = true
+					mu.Unlock()
+				}
+			}
+		}()
+		big := false
+		total := 0
+		want := make([][][]byte, len(cs.Senders))
+		bundles := make([][]bpv7.Bundle, len(cs.Senders))
+		for i, items := range cs.Senders {
+			for j, it := range items {
+				// distinct bundles: the seed is made unique per (sender, position)
+				b, e, err := vfBundle(it.Pay, it.Seed*64+uint64(i*8+j))
+				if err != nil {
+					c.Failf("c12.harness", "bundle: %v", err)
+				}
+				b.PrimaryBlock.CreationTimestamp[1] = uint64(i*100 + j)
+				e = enc(&b)
+				if len(e) > 4096 {
+					big = true
+				}
+				want[i] = append(want[i], e)
+				bundles[i] = append(bundles[i], b)
+				total++
+			}
+		}
+		writers := len(cs.Senders)
+		if cs.KeepLive {
+			writers++
+		}
+		if writers >= 2 && big {
+			c.NonTrivial()
+		}
+		stopKA := make(chan struct{})
+		kaDone := make(chan struct{})
+		nKA := 0
+		if cs.KeepLive {
+			go func() {
+				defer close(kaDone)
+				for i := 0; ; i++ {
+					select {
+					case <-stopKA:
+						return
+					default:
+					}
+					client.mutex.Lock()
+					err := cboring.WriteByteStringLen(0, client.conn)
+					client.mutex.Unlock()
+					if err != nil {
+						return
+					}
+					nKA++
+					time.Sleep(time.Duration(20+(i%10)*20) * time.Microsecond)
+				}
+			}()
+		} else {
+			close(kaDone)
+		}
+		var wg sync.WaitGroup
+		errs := make([]error, len(cs.Senders))
+		for i := range cs.Senders {
+			wg.Add(1)
+			go func(i int) {
+				defer wg.Done()
+				for _, b := range bundles[i] {
+					if err := client.Send(b); err != nil {
+						errs[i] = err
+						return
+					}
+				}
+			}(i)
+		}
+		wg.Wait()
+		close(stopKA)
+		<-kaDone
+		deadline := time.Now().Add(5 * time.Second)
+		for {
+			mu.Lock()
+			n := len(got)
+			mu.Unlock()
+			if n >= total || time.Now().After(deadline) {
+				break
+			}
+			time.Sleep(200 * time.Microsecond)
+		}
+		time.Sleep(2 * time.Millisecond)
+		_ = client.Close()
+		_ = serv.Close()
+		<-servDone
+		<-cliDone
+		mu.Lock()
+		defer mu.Unlock()
+		for i, e := range errs {
+			if e != nil {
+				c.Failf("c12.mtcp-send-error", "%d concurrent writers (keep-alives: %v): Send of sender %d on a healthy connection fails: %v", writers, cs.KeepLive, i, e)
+			}
+		}
+		if len(got) != total {
+			c.Failf("c12.mtcp-count", "%d bundles sent by %d senders (%d keep-alive frames in between), server handed up %d", total, len(cs.Senders), nKA, len(got))
+		}
+		// each sender's bundles arrive in its order; the union is exactly what was sent
+		next := make([]int, len(cs.Senders))
+		for k, g := range got {
+			found := false
+			for i := range want {
+				if next[i] < len(want[i]) && bytes.Equal(want[i][next[i]], g) {
+					next[i]++
+					found = true
+					break
+				}
+			}
+			if !found {
+				c.Failf("c12.mtcp-differs", "bundle %d handed up by the server (%d bytes) is not the next bundle of any sender: changed, duplicated or out of order", k, len(g))
+			}
+		}
+		if gone {
+			c.Failf("c12.mtcp-false-disappear", "client reports the peer as gone on a healthy connection")
+		}
+	})
+}
